@@ -452,6 +452,10 @@ impl<F: Fam> Ctx<F> {
                     let mut rem = n;
                     for i in 0..take_n {
                         ic!(errs, it.len() == rem && it.size_hint() == (rem, Some(rem)), "set into_iter(): after {} items len() = {}, {} remain", i, it.len(), rem);
+                        if (i == 0 || i == take_n / 2) && rem <= 20_000 {
+                            let c = crate::iters::debug_numbers(&it);
+                            ic!(errs, c == rem, "set into_iter(): after {} items its Debug output lists {} elements, {} remain", i, c, rem);
+                        }
                         match it.next() {
                             Some(k) => {
                                 k.check("set into_iter");
@@ -488,6 +492,10 @@ impl<F: Fam> Ctx<F> {
                     let mut i = 0;
                     loop {
                         ic!(errs, it.len() == rem && it.size_hint() == (rem, Some(rem)), "set iter(): after {} items len() = {}, size_hint {:?}, {} remain", i, it.len(), it.size_hint(), rem);
+                        if (i == 0 || Some(i) == clone_idx) && rem <= 20_000 {
+                            let c = crate::iters::debug_numbers(&it);
+                            ic!(errs, c == rem, "set iter(): after {} items its Debug output lists {} elements, {} remain", i, c, rem);
+                        }
                         if Some(i) == clone_idx {
                             cloned = Some(it.clone());
                         }
@@ -519,6 +527,10 @@ impl<F: Fam> Ctx<F> {
                     let mut rem = n;
                     for i in 0..take_n {
                         ic!(errs, d.len() == rem && d.size_hint() == (rem, Some(rem)), "set drain(): after {} items len() = {}, {} remain", i, d.len(), rem);
+                        if (i == 0 || i == take_n / 2) && rem <= 20_000 {
+                            let c = crate::iters::debug_numbers(&d);
+                            ic!(errs, c == rem, "set drain(): after {} items its Debug output lists {} elements, {} remain", i, c, rem);
+                        }
                         match d.next() {
                             Some(k) => {
                                 k.check("set drain");
